@@ -1,6 +1,7 @@
 (* C13 -- concurrent or nested parses on a shared instance do not interfere.
    Only statements and [exact]. *)
 From MD Require Import Base.Py Base.Opt Model.Ruler Model.Conc Lemmas.RulerCoherent Lemmas.ConcLemmas.
+From MD Require Import Gen.RulerShape.
 
 (* any number of threads, any request programs, any schedule (nested calls are the
    schedules in which the inner thread runs to completion between two steps of the
@@ -36,6 +37,14 @@ Theorem C13_legacy_refuted :
             /\ compile_chain race_rules [] = [1].
 Proof. exact race_refuted. Qed.
 Print Assumptions C13_legacy_refuted.
+
+(* the atomic actions of the model are those of the code: the accesses to the shared
+   cache attribute in the bytecode of Ruler.getRules / Ruler.__compile__ (regenerated
+   from /repo on every run) are the ones the step function implements *)
+Theorem C13_model_shape_is_code_shape :
+  getRules_shape = expected_getRules_shape /\ compile_shape = expected_compile_shape.
+Proof. split; reflexivity. Qed.
+Print Assumptions C13_model_shape_is_code_shape.
 
 Example C13_nonvacuous :
   let w := crun race_rules false [0; 0; 1; 1; 1; 1; 1; 0; 0; 0]%nat (start None [[[]]; [[]]]) in
